@@ -68,7 +68,8 @@ Definition eval_shift (op : binop) (l r : constv) : constv + cerr :=
       else if 64 <=? b then inr CeOverflow                             (* checked_shl / checked_shr *)
       else match op with
            | BoShr => inl (CInt (Z.shiftr a b))
-           | _ => inl (CInt (wrap_i64 (Z.shiftl a b)))                 (* checked_shl only checks the shift amount *)
+           | _ => let w := wrap_i64 (Z.shiftl a b) in                  (* checked_shl, then the lost-bits test a >> n == l *)
+                  if Z.shiftr w b =? a then inl (CInt w) else inr CeOverflow
            end
   | _, _ => inr (CeUnsupported2 (const_tdesc l) (const_tdesc r))
   end.
